@@ -343,6 +343,28 @@ def check_ruby_font_size(ctx):
   trav.check_type_guard(ctx, f, g.test, names, oracle, "FIN-ruby", f"{f.qualname}|ruby text is half the size of its base, once", ctx.where(f.module, g), "ruby font size default")
 
 
+def check_unattached(ctx):
+  """UNATTACHED: while styles are resolved the ISD element is not yet linked to its parent (children
+  are pushed afterwards), so inherit / compute must use their `parent` argument; `element.parent()`
+  is None at that point."""
+  ix = ctx.ix
+  n = 0
+  for c in ix.classes.values():
+    if c.module.name != "ttconv.isd" or "StyleProcessors" not in c.qualname:
+      continue
+    for m in c.methods.values():
+      if m.name not in ("inherit", "compute") or len(m.params) < 3:
+        continue
+      el = m.params[2]
+      n += 1
+      bad = [x for x in own_nodes(m.node) if isinstance(x, ast.Call) and isinstance(x.func, ast.Attribute) and x.func.attr in ("parent", "root", "previous_sibling", "next_sibling") and unparse(x.func.value) == el]
+      if bad:
+        ctx.bad("UNATTACHED", f"{m.qualname}|{short(bad[0], 40)}", ctx.where(m.module, bad[0]),
+                f"`{short(bad[0], 50)}` navigates from the element whose styles are being resolved; it is not attached to its parent yet (the `parent` argument is the parent), so the result is None")
+  ctx.ok("UNATTACHED", "ttconv.isd:StyleProcessors|inherit / compute use the parent argument", "src/main/python/ttconv/isd.py", f"{n} methods scanned")
+  ctx.floor("UNATTACHED", "inherit / compute methods", n, 10)
+
+
 def run(ctx):
   isdrules.check_style_order(ctx)
   n = isdrules.check_compute_order(ctx)
@@ -352,5 +374,8 @@ def run(ctx):
   ctx.floor("AXIS", "_compute_length call sites", na, 12)
   check_units(ctx)
   check_ruby_font_size(ctx)
+  check_unattached(ctx)
+  # the animation step that is active at t decides the value: [begin, end) as in C01
+  isdrules.check_activity_guards(ctx)
   shape.check_cache_keys(ctx, common.funcs(ctx, ["ttconv.isd"]))
   common.check_history_independence(ctx, common.CORE)
